@@ -28,9 +28,10 @@ func unmarshal(b []byte, m gproto.Message) error { return gproto.Unmarshal(b, m)
 
 // Fault is one action of the fault plan, taken when the n-th inter-node call happens.
 type Fault struct {
-	At   int
-	Kind string // tick | kill | killjob | savepoint
-	Who  int
+	At      int
+	Kind    string // tick | kill | killjob | savepoint | tickkill (a tick, and a kill Who calls behind it)
+	Retries int    // (bookkeeping of a tick that found a checkpoint in progress and comes back)
+	Who     int
 }
 
 // Program is a cluster-level case.
@@ -55,6 +56,7 @@ type Stats struct {
 	Savepoints, SelfExits, FinalRetries                                     int
 	BarriersBothSides, MaxKeyCalls, ResumedSplits                           int
 	ExitReasons                                                             []string
+	CkptsBeforeEnd                                                          int // snapshots in storage when all input had been processed
 	HandlerPanics                                                           []string
 }
 
@@ -170,7 +172,27 @@ settle:
 		select {
 		case f := <-actions:
 			switch f.Kind {
-			case "tick":
+			case "tick", "tickkill":
+				// The job's timer retries a tick that finds a checkpoint in progress one
+				// second later; with frozen time that retry is the harness's: the tick
+				// comes back a few calls later (a bounded number of times).
+				snaps := w.Snapshots()
+				w.mu.Lock()
+				inProgress := len(w.StartCkpts) > 0 && (len(snaps) == 0 || w.StartCkpts[len(w.StartCkpts)-1] > snaps[len(snaps)-1])
+				if inProgress && f.Retries < 10 {
+					pending = append(pending, Fault{At: int(w.gateN.Load()) + 3, Kind: f.Kind, Who: f.Who, Retries: f.Retries + 1})
+					rest := pending[idx:]
+					sort.SliceStable(rest, func(i, j int) bool { return rest[i].At < rest[j].At })
+					w.mu.Unlock()
+					break
+				}
+				if f.Kind == "tickkill" {
+					// ... and a worker dies Who calls behind the start of this checkpoint
+					pending = append(pending, Fault{At: int(w.gateN.Load()) + 1 + f.Who, Kind: "kill", Who: f.Who})
+					rest := pending[idx:]
+					sort.SliceStable(rest, func(i, j int) bool { return rest[i].At < rest[j].At })
+				}
+				w.mu.Unlock()
 				w.Tick()
 				st.Ticks++
 			case "kill":
@@ -263,6 +285,9 @@ settle:
 	// final checkpoint
 	genAtDone := w.gen.Load()
 	publishedBefore = len(w.Snapshots())
+	if st.FinalRetries == 0 {
+		st.CkptsBeforeEnd = publishedBefore
+	}
 	var lastID uint64
 	if s := w.Snapshots(); len(s) > 0 {
 		lastID = s[len(s)-1]
@@ -647,6 +672,20 @@ func GenProgram(rt *rapid.T, faults []string, maxFaults int) Program {
 		a := rapid.IntRange(2*p.Cfg.Workers+2, max(2*p.Cfg.Workers+3, span/2)).Draw(rt, "tickat")
 		p.Faults[0] = Fault{At: a, Kind: "tick"}
 		p.Faults[1] = Fault{At: a + rapid.IntRange(1, max(2, span/2)).Draw(rt, "gap"), Kind: faults[max(0, len(faults)-2)], Who: rapid.IntRange(0, 3).Draw(rt, "who2")}
+	}
+	if nf >= 3 && len(faults) >= 2 && rapid.IntRange(0, 2).Draw(rt, "ticktickkill") == 0 {
+		// a checkpoint that completes, then a second one with the failure right behind
+		// its start: some operators have written their part of it, the job has not
+		// published it
+		a := rapid.IntRange(2*p.Cfg.Workers+2, max(2*p.Cfg.Workers+3, span/3)).Draw(rt, "tick1at")
+		b := a + rapid.IntRange(3, max(4, span/3)).Draw(rt, "gap1")
+		p.Faults[0] = Fault{At: a, Kind: "tick"}
+		if faults[max(0, len(faults)-2)] == "kill" {
+			p.Faults[1] = Fault{At: b, Kind: "tickkill", Who: rapid.IntRange(0, 6+4*p.Cfg.Workers).Draw(rt, "gap2")}
+			p.Faults = append(p.Faults[:2], p.Faults[3:]...)
+		} else {
+			p.Faults[1] = Fault{At: b, Kind: "tick"}
+		}
 	}
 	p.LatencyUs = rapid.SliceOfN(rapid.SampledFrom([]int{0, 0, 0, 50, 300}), 0, 6).Draw(rt, "latency")
 	return p
